@@ -48,6 +48,7 @@ TCall ==
   /\ Has("call")
   /\ IF phase # "idle" THEN Fail("harness:call-while-outstanding")
      ELSE IF owe THEN Fail("C12:matched-event-not-answered")
+     ELSE IF tbl # <<>> /\ Head(tbl) # "any" /\ Head(tbl) # E.tmo THEN Fail("C12:timeout-argument-not-honoured")
      ELSE Call(E.pats, E.W, E.tmo, E.exact) /\ Same
   /\ rdy' = E.ready /\ recv0' = Len(recv)
   /\ Step /\ UNCHANGED <<obsHanded, tbl, owe, cmd>>
@@ -150,14 +151,14 @@ TRet ==
            ELSE UNCHANGED avars
         /\ obsHanded' = IF o.kind = "match" THEN obsHanded \o o.before \o o.after
                         ELSE IF o.kind = "eof" THEN obsHanded \o o.before ELSE obsHanded
-  /\ owe' = (tbl # <<>> /\ E.idx >= 0 /\ E.idx < Len(tbl) /\ tbl[E.idx + 1] \in {"str", "cb_str"})
+  /\ owe' = (tbl # <<>> /\ E.idx >= 0 /\ E.idx + 1 < Len(tbl) /\ tbl[E.idx + 2] \in {"str", "cb_str"})
   /\ cmd' = IF cmd.on /\ E.kind = "match" THEN [cmd EXCEPT !.acc = cmd.acc \o E.before] ELSE cmd
   /\ Step /\ UNCHANGED <<rdy, recv0, tbl>>
 
 (* ---- run(): the loop around expect (C12) ------------------------------------------------- *)
 TRunStart ==
   /\ Has("run")
-  /\ tbl' = E.resp /\ owe' = FALSE /\ Same
+  /\ tbl' = <<E.tmo_req>> \o E.resp /\ owe' = FALSE /\ Same      \* first element: the timeout class run() was asked for
   /\ Step /\ UNCHANGED <<avars, obsHanded, rdy, recv0, cmd>>
 
 \* a response was written to the child: exactly one per occurrence of an event whose response is a string
